@@ -188,6 +188,29 @@ def gen_site_case(site: str, r: random.Random, exact: bool) -> dict[str, Any]:
         p = r.randint(0, 3)
         n = p + 2 + r.randint(0, 4)
         steps = r.sample(range(0, 20), n)
+        if not exact and r.random() < 0.5:
+            # decimal grid: scores k/10 and a min_delta that is not representable in binary, so that a score drop equals
+            # min_delta up to the last bit - where `a - d > b` and `b + d < a` round differently
+            dv = lambda: (float("nan") if r.random() < 0.05 else r.randint(-12, 12) / 10.0 + r.choice([0.0, 0.0, 0.1 + 0.2 - 0.3]))  # noqa: E731
+            delta = r.choice([0.1, 0.2, 0.3, 0.7, 0.01])
+            iv = [[s, dv()] for s in steps]
+            if r.random() < 0.7:
+                # put the best value of the window exactly `delta` (as a decimal) away from the best value before it
+                ordered = sorted(range(n), key=lambda i: steps[i])
+                before, after = ordered[: n - p - 1], ordered[n - p - 1:]
+                if before and after:
+                    b = r.randint(-8, 8) / 10.0 + r.choice([0.0, 0.1 + 0.2 - 0.3, -(0.1 + 0.2 - 0.3)])
+                    a = r.choice([b - delta, b + delta, (round(b * 100) - round(delta * 100)) / 100.0, (round(b * 100) + round(delta * 100)) / 100.0])
+                    lo = min(a, b) - 1.0
+                    for i in before:
+                        iv[i][1] = lo - r.random()
+                    for i in after:
+                        iv[i][1] = lo - r.random()
+                    iv[r.choice(before)][1] = b
+                    iv[r.choice(after)][1] = a
+                    if r.random() < 0.5:  # the same shape for a minimising reading: best = smallest
+                        iv = [[s, -v] for s, v in iv]
+            return {"patience": p, "delta": delta, "iv": iv}
         return {"patience": p, "delta": (r.randint(0, 8) / 16.0), "iv": [[s, valv()] for s in steps]}
     if site == "threshold":
         lo = val() if r.random() < 0.8 else None
@@ -840,6 +863,13 @@ def main(chk: core.Check) -> int:
 def search(chk: core.Check) -> None:
     """Something no longer checks (proof obligation over the regenerated site table, translation, site correspondence)
     and no concrete asymmetric run is known yet: hunt for one on the real code, first where the inventory changed."""
+    try:
+        chk.search_log.append("site-level mirror sweep on the real code: 700 float cases per site")
+        run_sites(chk, n_exact=0, n_float=700)
+    except core.DriverBroken:
+        pass
+    if chk.violations:
+        return
     from verif.props import c15_nsga
     c15_nsga.search(chk)
     if chk.violations:
